@@ -25,7 +25,7 @@ ASSUMPTIONS = ['Agent/Environment/world classes are process-global: every histor
 FLOORS = {'quick': {'class_observations': 100000, 'class_attach': 2000, 'class_detach': 400, 'rejected_duplicate_attach': 200,
                     'rejected_absent_detach': 500, 'default_tag_changes': 2000, 'instances_default_tag': 2000,
                     'instances_default_tag_nonzero': 390, 'instances_explicit_tag': 800, 'instances_explicit_zero_vs_default': 100,
-                    'environment_instances': 500, 'ops_on_library_classes': 2000, 'mid_history_classes': 500,
+                    'environment_instances': 500, 'ops_on_library_classes': 2000, 'mid_history_classes': 500, 'same_named_classes': 300,
                     'reach:Core._MetaAgent.add_class_component': 3000, 'reach:Core.Agent.__init__': 4600},
           'thorough': {'class_observations': 5000000}}
 EXHAUSTIVE = {}
@@ -77,7 +77,12 @@ def case_history(ctx, case):
     def new_class():
         base = rng.choice(classes)
         counter[0] += 1
-        K = type(f'Gen{case["i"]}_{counter[0]}', (base,), {})
+        name = f'Gen{case["i"]}_{counter[0]}'
+        if rng.random() < 0.3 and len(classes) > len(lib):
+            # a second, distinct class with the very same name (same factory called twice, a re-run cell, one Animal class per model)
+            name = rng.choice(classes[len(lib):]).__name__
+            ctx.count('same_named_classes')
+        K = type(name, (base,), {})
         classes.append(K)
         ref[K] = {'comps': {}, 'tag': 0}
         trace.append(('class', K.__name__, base.__name__))
